@@ -1,10 +1,27 @@
-(* Props.v (C01) — statements only.  Proofs: C01/Lemmas.v.
+(* Props.v (C01) — statements only.  Proofs: C01/Lemmas.v, Lemmas2.v, Lemmas3.v.
    Reading: a model cell holds `option Q` (argument of exp; None = value 0);
    `val` is its real value; `gauss_spec p x y s` is the property's formula
-   exp(-d^2/(2 s^2)) written independently over R (0 for a missing keypoint). *)
-From Coq Require Import List Arith ZArith QArith Qreals Reals.
+   exp(-d^2/(2 s^2)) written independently over R (0 for a missing keypoint).
+
+   Idealisation: exact arithmetic.  A model value is an `R`, so "never NaN or
+   infinite" is a TYPING fact of the model (plus the [0,1] theorems), not a theorem
+   about float32; the code's float32 arithmetic can underflow 2(sigma*stride)^2 or
+   overflow d^2 (nan_to_num then silences 0/0, inf/inf): the theorems speak for
+   2(sigma*stride)^2 and d^2 inside the float32 normal range (harness: sigma in
+   [1/8, 64], |coordinate| <= 5000), see notes/C01.md "Outside".
+
+   Variants (finding F60): `fx = false` is the PINNED tree (make_multi_confmaps
+   broadcasts every animal over all samples), `fx = true` the repaired variant
+   (proposed_fixes/C01_F60.diff).  Theorems named `_pinned_all_samples` state what
+   the pinned code computes (maximum over the animals of ALL samples); they are
+   not the property.  The property is the PER-SAMPLE reading: `_repaired` (no side
+   condition), `_partial` (pinned tree, outside the selector
+   `others_contribute`), `_refuted`, `_one_sample` (every call /repo makes).
+   Names ending in `_spec` are facts of real analysis about the statement's own
+   formula, `_def` hold by unfolding a definition. *)
+From Coq Require Import List Arith ZArith QArith Qreals Reals Lia.
 Import ListNotations.
-From SV Require Import C01.ConfMaps C01.Lemmas C01.Entry C01.TExpr C01.Lemmas2.
+From SV Require Import C01.ConfMaps C01.Lemmas C01.Entry C01.TExpr C01.Lemmas2 C01.Lemmas3.
 Local Open Scope R_scope.
 
 (* value formula at every grid cell of every channel of generate_confmaps:
@@ -21,37 +38,42 @@ Theorem c01_value_formula :
 Proof. exact generate_confmaps3_cell. Qed.
 Print Assumptions c01_value_formula.
 
-(* range: every value lies in [0,1] (hence is finite, never NaN) *)
-Theorem c01_range : forall p x y sig, sig <> 0 -> 0 <= gauss_spec p x y sig <= 1.
+(* range: every value lies in [0,1].  c01_range_spec is about the statement's
+   formula; c01_cell_range about the model's cell function; on the OUTPUTS:
+   c01_generate_confmaps_range (below), c01_multi_range *)
+Theorem c01_range_spec : forall p x y sig, sig <> 0 -> 0 <= gauss_spec p x y sig <= 1.
 Proof. exact gauss_spec_range. Qed.
-Print Assumptions c01_range.
+Print Assumptions c01_range_spec.
 
 Theorem c01_cell_range : forall sig p x y, (0 < sig)%Q -> 0 <= val (cell_arg sig p x y) <= 1.
 Proof. exact val_range. Qed.
 Print Assumptions c01_cell_range.
 
-(* largest at the nearest grid cell: the value is antitone in the squared
-   distance to the keypoint, strictly so, and equals 1 exactly on the keypoint *)
-Theorem c01_nearer_is_larger : forall p x1 y1 x2 y2 sig,
+(* the statement's formula is antitone in the squared distance to the keypoint,
+   strictly so, and equals 1 exactly on the keypoint (facts of real analysis about
+   gauss_spec; on the OUTPUTS: c01_nearest_cell_is_largest, c01_nearest_cell_strict,
+   c01_multi_nearest_cell, c01_centroid_nearest_cell) *)
+Theorem c01_nearer_is_larger_spec : forall p x1 y1 x2 y2 sig,
   sig <> 0 -> dist2 p x1 y1 <= dist2 p x2 y2 ->
   gauss_spec (Some p) x2 y2 sig <= gauss_spec (Some p) x1 y1 sig.
 Proof. exact gauss_spec_monotone. Qed.
-Print Assumptions c01_nearer_is_larger.
+Print Assumptions c01_nearer_is_larger_spec.
 
-Theorem c01_strictly_nearer_is_strictly_larger : forall p x1 y1 x2 y2 sig,
+Theorem c01_strictly_nearer_is_strictly_larger_spec : forall p x1 y1 x2 y2 sig,
   sig <> 0 -> dist2 p x1 y1 < dist2 p x2 y2 ->
   gauss_spec (Some p) x2 y2 sig < gauss_spec (Some p) x1 y1 sig.
 Proof. exact gauss_spec_strict. Qed.
-Print Assumptions c01_strictly_nearer_is_strictly_larger.
+Print Assumptions c01_strictly_nearer_is_strictly_larger_spec.
 
-Theorem c01_one_iff_on_keypoint : forall p x y sig,
+Theorem c01_one_iff_on_keypoint_spec : forall p x y sig,
   sig <> 0 -> (gauss_spec (Some p) x y sig = 1 <-> dist2 p x y = 0).
 Proof. exact gauss_spec_one_iff. Qed.
-Print Assumptions c01_one_iff_on_keypoint.
+Print Assumptions c01_one_iff_on_keypoint_spec.
 
-(* multi-instance / centroid maps: per-cell maximum over the animals; the
-   statement is about make_multi_confmaps on whatever grid vectors it is given *)
-Theorem c01_multi_is_max_over_animals :
+(* PINNED tree (before the repair of F60), what the code computes: the per-cell
+   maximum over the animals of ALL samples (equal to the per-sample maximum for
+   one sample); on whatever grid vectors make_multi_confmaps is given *)
+Theorem c01_multi_is_max_over_animals_pinned_all_samples :
   forall pts n_nodes xv yv sig smp c i j x y,
   (0 < sig)%Q -> nth_error yv i = Some y -> nth_error xv j = Some x ->
   (c < n_nodes)%nat -> (smp < length pts)%nat ->
@@ -61,27 +83,30 @@ Theorem c01_multi_is_max_over_animals :
     val a = Rmax_list (map (fun inst => gauss_spec (nth c inst None) (Q2R x) (Q2R y) (Q2R sig))
                            (concat pts)).
 Proof. exact multi_confmaps_cell. Qed.
-Print Assumptions c01_multi_is_max_over_animals.
+Print Assumptions c01_multi_is_max_over_animals_pinned_all_samples.
 
 (* a missing keypoint contributes nothing; a channel whose contributors are all
-   missing is identically zero *)
-Theorem c01_missing_contributes_nothing : forall sig x y ps1 ps2 a0,
+   missing is identically zero: about the cell-wise fold `fold_cell`, which IS the
+   cell of the executable per-sample function (c01_fold_cell_is_the_cell below);
+   on the outputs: c01_multi_missing_channel_zero_* *)
+Theorem c01_missing_contributes_nothing_def : forall sig x y ps1 ps2 a0,
   fold_cell sig x y (ps1 ++ None :: ps2) a0 = fold_cell sig x y (ps1 ++ ps2) a0.
 Proof. exact multi_cell_missing_neutral. Qed.
-Print Assumptions c01_missing_contributes_nothing.
+Print Assumptions c01_missing_contributes_nothing_def.
 
-Theorem c01_all_missing_zero : forall sig x y ps,
+Theorem c01_all_missing_zero_def : forall sig x y ps,
   Forall (fun p => p = None) ps -> val (fold_cell sig x y ps None) = 0.
 Proof. intros. rewrite multi_cell_all_missing by assumption. reflexivity. Qed.
-Print Assumptions c01_all_missing_zero.
+Print Assumptions c01_all_missing_zero_def.
 
-Theorem c01_missing_single_zero : forall sig x y, val (cell_arg sig None x y) = 0.
+Theorem c01_missing_single_zero_def : forall sig x y, val (cell_arg sig None x y) = 0.
 Proof. reflexivity. Qed.
-Print Assumptions c01_missing_single_zero.
+Print Assumptions c01_missing_single_zero_def.
 
-(* shape: ceil(n/stride) samples per axis, = n/stride when the stride divides n *)
-Theorem c01_grid_length : forall n s, length (grid n s) = ceil_div n s.
-Proof. exact grid_length. Qed.
+(* shape: ceil(n/stride) samples per axis, = n/stride when the stride divides n
+   (stride >= 1: torch.arange(step=0) raises, the model's ceil_div n 0 = 0 is a totalisation) *)
+Theorem c01_grid_length : forall n s, (0 < s)%nat -> length (grid n s) = ceil_div n s.
+Proof. intros n s _. apply grid_length. Qed.
 Print Assumptions c01_grid_length.
 
 Theorem c01_grid_length_exact : forall q s, (0 < s)%nat -> length (grid (q * s) s) = q.
@@ -90,7 +115,7 @@ Print Assumptions c01_grid_length_exact.
 
 (* non-vacuity: a concrete keypoint / grid meets the hypotheses *)
 Example ex_c01_nonvacuous :
-  exists a, cell4 (generate_confmaps3 [[Some (3#2, 5#2)]] 8 8 (3#2) 2) 0 0 1 1 = Some a.
+  exists a, cell4 (generate_confmaps3 [[Some (3#2, 5#2)]] 8 8 (3#2) 2) 0 0 1 1 = Some (Some a).
 Proof. eexists. vm_compute. reflexivity. Qed.
 
 (* ====================================================================== round 2 *)
@@ -109,9 +134,9 @@ Theorem c01_value_formula_rank4 :
 Proof. exact generate_confmaps4_cell. Qed.
 Print Assumptions c01_value_formula_rank4.
 
-(* generate_multiconfmaps end to end (stride grid, sigma*stride, the slice by
-   num_instances): per-cell maximum over the animals *)
-Theorem c01_multi_value_formula :
+(* PINNED tree: generate_multiconfmaps end to end (stride grid, sigma*stride, the
+   slice by num_instances): per-cell maximum over the animals of ALL samples *)
+Theorem c01_multi_value_formula_pinned_all_samples :
   forall pts n_nodes H W num sigma s smp c i j,
   (0 < s)%nat -> (0 < sigma)%Q ->
   (i * s < H)%nat -> (j * s < W)%nat -> (c < n_nodes)%nat -> (smp < length pts)%nat ->
@@ -122,9 +147,9 @@ Theorem c01_multi_value_formula :
                                                    (Q2R sigma * INR s))
                            (concat (map (firstn num) pts))).
 Proof. exact generate_multiconfmaps_cell. Qed.
-Print Assumptions c01_multi_value_formula.
+Print Assumptions c01_multi_value_formula_pinned_all_samples.
 
-Theorem c01_centroid_value_formula :
+Theorem c01_centroid_value_formula_pinned_all_samples :
   forall cents H W num sigma s smp i j,
   (0 < s)%nat -> (0 < sigma)%Q ->
   (i * s < H)%nat -> (j * s < W)%nat -> (smp < length cents)%nat ->
@@ -133,20 +158,20 @@ Theorem c01_centroid_value_formula :
     val a = Rmax_list (map (fun c => gauss_spec c (INR (j * s)) (INR (i * s)) (Q2R sigma * INR s))
                            (concat (map (firstn num) cents))).
 Proof. exact generate_multiconfmaps_centroids_cell. Qed.
-Print Assumptions c01_centroid_value_formula.
+Print Assumptions c01_centroid_value_formula_pinned_all_samples.
 
-(* every cell of a multi-instance / centroid map lies in [0,1] (finite, not NaN) *)
+(* every cell of a multi-instance / centroid map lies in [0,1], both variants *)
 Theorem c01_multi_range :
-  forall pts n_nodes xv yv sig smp c i j x y,
+  forall fx pts n_nodes xv yv sig smp c i j x y,
   (0 < sig)%Q -> nth_error yv i = Some y -> nth_error xv j = Some x ->
   (c < n_nodes)%nat -> (smp < length pts)%nat ->
   Forall (fun inst => length inst = n_nodes) (concat pts) ->
-  exists a, cell4 (make_multi_confmaps pts n_nodes xv yv sig) smp c i j = Some a /\ 0 <= val a <= 1.
-Proof. exact multi_confmaps_range. Qed.
+  exists a, cell4 (mmc fx pts n_nodes xv yv sig) smp c i j = Some a /\ 0 <= val a <= 1.
+Proof. exact mmc_range. Qed.
 Print Assumptions c01_multi_range.
 
-(* a node that no contributing animal has labelled gives an all-zero channel *)
-Theorem c01_multi_missing_channel_zero :
+(* PINNED tree: a node that no animal of ANY sample has labelled gives an all-zero channel *)
+Theorem c01_multi_missing_channel_zero_pinned_all_samples :
   forall pts n_nodes xv yv sig smp c i j x y,
   (0 < sig)%Q -> nth_error yv i = Some y -> nth_error xv j = Some x ->
   (c < n_nodes)%nat -> (smp < length pts)%nat ->
@@ -154,7 +179,7 @@ Theorem c01_multi_missing_channel_zero :
   Forall (fun inst => nth c inst None = None) (concat pts) ->
   exists a, cell4 (make_multi_confmaps pts n_nodes xv yv sig) smp c i j = Some a /\ val a = 0.
 Proof. exact multi_confmaps_missing_channel_zero. Qed.
-Print Assumptions c01_multi_missing_channel_zero.
+Print Assumptions c01_multi_missing_channel_zero_pinned_all_samples.
 
 (* largest at the nearest grid cell, on the output of generate_confmaps *)
 Theorem c01_nearest_cell_is_largest :
@@ -172,37 +197,38 @@ Print Assumptions c01_nearest_cell_is_largest.
 
 (* shapes: (samples, nodes, ceil(H/stride), ceil(W/stride)) *)
 Theorem c01_shape_single :
-  forall pts H W sigma s,
+  forall pts H W sigma s, (0 < s)%nat ->
   length (generate_confmaps3 pts H W sigma s) = length pts /\
   forall smp nodes, nth_error pts smp = Some nodes ->
     exists chans, nth_error (generate_confmaps3 pts H W sigma s) smp = Some chans /\
       length chans = length nodes /\
       Forall (cmap_shape (ceil_div H s) (ceil_div W s)) chans.
-Proof. exact generate_confmaps3_shape. Qed.
+Proof. intros pts H W sigma s _. apply generate_confmaps3_shape. Qed.
 Print Assumptions c01_shape_single.
 
+(* out_shape S C h w out := length out = S /\ every sample has C channels of h rows of w cells *)
 Theorem c01_shape_multi :
-  forall pts n_nodes xv yv sig,
+  forall fx pts n_nodes xv yv sig,
   Forall (fun inst => length inst = n_nodes) (concat pts) ->
-  length (make_multi_confmaps pts n_nodes xv yv sig) = length pts /\
-  Forall (fun chans => length chans = n_nodes /\ Forall (cmap_shape (length yv) (length xv)) chans)
-         (make_multi_confmaps pts n_nodes xv yv sig).
-Proof. exact make_multi_confmaps_shape. Qed.
+  out_shape (length pts) n_nodes (length yv) (length xv) (mmc fx pts n_nodes xv yv sig).
+Proof. exact mmc_shape. Qed.
 Print Assumptions c01_shape_multi.
 
-(* the DataPipes: ConfidenceMapGenerator is generate_confmaps (both key
+(* the DataPipes (definitional in the model: the pipes' bodies repeat the
+   generate_* bodies; the tie of the pipes to the code is dynamic only):
+   ConfidenceMapGenerator is generate_confmaps (both key
    options), the centroid pipe is the centroid variant; the multi-instance pipe
    does not slice by num_instances and agrees with generate_multiconfmaps when
    the rows beyond num_instances are unlabelled (NaN padding) *)
-Theorem c01_datapipe_single :
+Theorem c01_datapipe_single_def :
   (forall pts H W sigma s, dp_single_instances pts H W sigma s = generate_confmaps4 pts H W sigma s) /\
   (forall pts H W sigma s, dp_single_other pts H W sigma s = generate_confmaps3 pts H W sigma s) /\
-  (forall cents H W num sigma s,
-     dp_centroids cents H W num sigma s = generate_multiconfmaps_centroids cents H W num sigma s).
-Proof. exact (conj dp_single_instances_eq (conj dp_single_other_eq dp_centroids_eq)). Qed.
-Print Assumptions c01_datapipe_single.
+  (forall fx cents H W num sigma s,
+     dp_centroids_v fx cents H W num sigma s = generate_multiconfmaps_centroids_v fx cents H W num sigma s).
+Proof. exact (conj dp_single_instances_eq (conj dp_single_other_eq dp_centroids_v_eq)). Qed.
+Print Assumptions c01_datapipe_single_def.
 
-Theorem c01_datapipe_multi_ignores_padding :
+Theorem c01_datapipe_multi_ignores_padding_pinned_all_samples :
   forall pts n_nodes H W num sigma s smp c i j,
   (0 < s)%nat -> (0 < sigma)%Q ->
   (i * s < H)%nat -> (j * s < W)%nat -> (c < n_nodes)%nat -> (smp < length pts)%nat ->
@@ -213,43 +239,75 @@ Theorem c01_datapipe_multi_ignores_padding :
     cell4 (generate_multiconfmaps pts n_nodes H W num sigma s) smp c i j = Some b /\
     val a = val b.
 Proof. exact dp_multi_cell_ignores_padding. Qed.
-Print Assumptions c01_datapipe_multi_ignores_padding.
+Print Assumptions c01_datapipe_multi_ignores_padding_pinned_all_samples.
 
 (* the description language of TExpr.v: the canonical descriptions of the five
-   function bodies denote the model functions (the per-run obligations in
-   Gen/C01_ConfmapsOblig.v instantiate these with the descriptions regenerated
-   from the source) *)
-Theorem c01_ir_make_confmaps : forall pts xv yv sig,
+   function bodies denote the model functions (the per-run obligations
+   Gen/C01_Oblig_<function>.v instantiate these with the descriptions regenerated
+   from the source).  Proof content: c01_ir_make_confmaps (NaN-propagating
+   arithmetic + layouts = cell_arg), c01_ir_make_grid_vectors,
+   c01_ir_make_multi_confmaps (loop with broadcast = compute once, copy) and
+   c01_ir_make_multi_confmaps_repaired (loop over transposed slots = per-sample
+   folds).  c01_ir_generate_confmaps_def / c01_ir_generate_multiconfmaps_def are
+   DEFINITIONAL: denote_genc / denote_genm call the model's functions in the
+   model's order, so for these two bodies tie 1 is an AST-template match.
+   `ar_float32` and the dtype of `zeros` are carried in the descriptions (the
+   translator fails closed on another dtype) but have no denotation.
+   sig > 0: at sig = 0 the model's Qdiv _ 0 = 0 is a totalisation (the code gives exp(-inf) = 0). *)
+Theorem c01_ir_make_confmaps : forall pts xv yv sig, (0 < sig)%Q ->
   denote_confmaps canon_confmaps pts xv yv sig = as_tval (make_confmaps pts xv yv sig).
-Proof. exact denote_confmaps_canon. Qed.
+Proof. intros pts xv yv sig _. apply denote_confmaps_canon. Qed.
 Print Assumptions c01_ir_make_confmaps.
 
 Theorem c01_ir_make_grid_vectors : forall H W s, denote_grid canon_grid H W s = make_grid_vectors H W s.
 Proof. exact denote_grid_canon. Qed.
 Print Assumptions c01_ir_make_grid_vectors.
 
+(* pinned tree *)
 Theorem c01_ir_make_multi_confmaps : forall pts n_nodes xv yv sig,
   denote_multi canon_multi pts n_nodes xv yv sig = Some (make_multi_confmaps pts n_nodes xv yv sig).
 Proof. exact denote_multi_canon. Qed.
 Print Assumptions c01_ir_make_multi_confmaps.
 
-Theorem c01_ir_generate_confmaps :
+(* repaired variant: on every rectangular array (a tensor) *)
+Theorem c01_ir_make_multi_confmaps_repaired : forall pts n_nodes xv yv sig,
+  rect pts ->
+  denote_multi canon_multi_fixed pts n_nodes xv yv sig = Some (make_multi_confmaps_ps pts n_nodes xv yv sig).
+Proof. exact denote_multi_canon_fixed. Qed.
+Print Assumptions c01_ir_make_multi_confmaps_repaired.
+
+Theorem c01_ir_generate_confmaps_def :
   (forall pts H W sigma s,
      denote_genc canon_genc (SVP3 pts) H W sigma s = Some (generate_confmaps3 pts H W sigma s)) /\
   (forall pts H W sigma s,
      denote_genc canon_genc (SVP4 pts) H W sigma s = Some (generate_confmaps4 pts H W sigma s)).
 Proof. exact (conj denote_genc_canon3 denote_genc_canon4). Qed.
-Print Assumptions c01_ir_generate_confmaps.
+Print Assumptions c01_ir_generate_confmaps_def.
 
-Theorem c01_ir_generate_multiconfmaps :
+Theorem c01_ir_generate_multiconfmaps_def :
+  (forall fx pts n_nodes H W num sigma s,
+     denote_genm fx canon_genm false (SVP4 pts) n_nodes H W num sigma s =
+     Some (generate_multiconfmaps_v fx pts n_nodes H W num sigma s)) /\
+  (forall fx cents n_nodes H W num sigma s,
+     denote_genm fx canon_genm true (SVP3 cents) n_nodes H W num sigma s =
+     Some (generate_multiconfmaps_centroids_v fx cents H W num sigma s)).
+Proof. exact (conj denote_genm_canon_instances_v denote_genm_canon_centroids_v). Qed.
+Print Assumptions c01_ir_generate_multiconfmaps_def.
+
+(* the variant functions at fx = false ARE the ConfMaps.v / Entry.v functions of rounds 1-2 *)
+Theorem c01_variants_pinned_def :
   (forall pts n_nodes H W num sigma s,
-     denote_genm canon_genm false (SVP4 pts) n_nodes H W num sigma s =
-     Some (generate_multiconfmaps pts n_nodes H W num sigma s)) /\
-  (forall cents n_nodes H W num sigma s,
-     denote_genm canon_genm true (SVP3 cents) n_nodes H W num sigma s =
-     Some (generate_multiconfmaps_centroids cents H W num sigma s)).
-Proof. exact (conj denote_genm_canon_instances denote_genm_canon_centroids). Qed.
-Print Assumptions c01_ir_generate_multiconfmaps.
+     generate_multiconfmaps_v false pts n_nodes H W num sigma s = generate_multiconfmaps pts n_nodes H W num sigma s) /\
+  (forall cents H W num sigma s,
+     generate_multiconfmaps_centroids_v false cents H W num sigma s =
+     generate_multiconfmaps_centroids cents H W num sigma s) /\
+  (forall pts n_nodes H W sigma s, dp_multi_v false pts n_nodes H W sigma s = dp_multi pts n_nodes H W sigma s) /\
+  (forall cents H W num sigma s, dp_centroids_v false cents H W num sigma s = dp_centroids cents H W num sigma s).
+Proof.
+  exact (conj generate_multiconfmaps_v_pinned (conj generate_multiconfmaps_centroids_v_pinned
+          (conj dp_multi_v_pinned dp_centroids_v_pinned))).
+Qed.
+Print Assumptions c01_variants_pinned_def.
 
 (* non-vacuity of the round-2 implications *)
 Example ex_c01_multi_nonvacuous :
@@ -261,12 +319,335 @@ Example ex_c01_centroid_nonvacuous :
   exists a, cell4 (generate_multiconfmaps_centroids [[None; Some (3#2, 5#2); None]] 7 5 2 (3#2) 2) 0 0 1 1 = Some (Some a).
 Proof. eexists. vm_compute. reflexivity. Qed.
 
+(* a full instance of c01_datapipe_multi_ignores_padding_*: H = W = 8, s = 2,
+   sigma = 3/2, num = 1, one padded row, sample 0, channel 0, cell (1,1) *)
 Example ex_c01_padding_nonvacuous :
-  Forall (fun smp => Forall (fun inst => nth 0 inst None = None) (skipn 1 smp))
-         [[[Some (3#2, 5#2)]; [(None : kp)]]].
-Proof. repeat constructor. Qed.
+  let pts := [[[Some (3#2, 5#2)]; [(None : kp)]]] in
+  (0 < 2)%nat /\ (0 < 3#2)%Q /\ (1 * 2 < 8)%nat /\ (0 < 1)%nat /\ nth_error pts 0 = Some [[Some (3#2, 5#2)]; [None]] /\
+  Forall (fun inst => length inst = 1%nat) (concat pts) /\
+  others_contribute pts 0 0 = false /\
+  Forall (fun inst => nth 0 inst None = None) (skipn 1 [[Some (3#2, 5#2)]; [(None : kp)]]) /\
+  exists a, cell4 (dp_multi_v false pts 1 8 8 (3#2) 2) 0 0 1 1 = Some (Some a).
+Proof.
+  cbv zeta. repeat (split; [first [lia | reflexivity | (repeat constructor)]|]).
+  eexists. vm_compute. reflexivity.
+Qed.
 
 Example ex_c01_rank4_nonvacuous :
   exists a, cell4 (generate_confmaps4 [[[Some (1#1, 1#1); None]; [None; Some (3#2, 5#2)]]] 8 8 (3#2) 2)
                   0 (1 * 2 + 1) 1 1 = Some (Some a).
 Proof. eexists. vm_compute. reflexivity. Qed.
+
+(* ====================================================================== round 4
+   PER-SAMPLE statements (the property): the channel of a frame is the per-cell
+   maximum over the animals OF THAT FRAME.  Hypothesis
+     fx = true \/ others_contribute ... smp c = false
+   reads: the repaired variant, with no side condition; or the pinned tree
+   outside the selector of F60 (no animal of ANOTHER sample has node c labelled
+   among the contributing rows).  `_repaired` / `_partial` / `_one_sample` are the
+   instances; `_refuted` shows the side condition is needed for the pinned tree. *)
+
+(* make_multi_confmaps on whatever grid vectors *)
+Theorem c01_multi_is_max_over_animals_variants :
+  forall fx pts n_nodes xv yv sig smp insts c i j x y,
+  (0 < sig)%Q -> nth_error yv i = Some y -> nth_error xv j = Some x ->
+  (c < n_nodes)%nat -> nth_error pts smp = Some insts ->
+  Forall (fun inst => length inst = n_nodes) (concat pts) ->
+  fx = true \/ others_contribute pts smp c = false ->
+  exists a,
+    cell4 (mmc fx pts n_nodes xv yv sig) smp c i j = Some a /\
+    val a = Rmax_list (map (fun inst => gauss_spec (nth c inst None) (Q2R x) (Q2R y) (Q2R sig)) insts).
+Proof. exact mmc_cell_per_sample. Qed.
+Print Assumptions c01_multi_is_max_over_animals_variants.
+
+(* generate_multiconfmaps end to end (stride grid, sigma*stride, slice by num_instances) *)
+Theorem c01_multi_value_formula_variants :
+  forall fx pts n_nodes H W num sigma s smp insts c i j,
+  (0 < s)%nat -> (0 < sigma)%Q ->
+  (i * s < H)%nat -> (j * s < W)%nat -> (c < n_nodes)%nat -> nth_error pts smp = Some insts ->
+  Forall (fun inst => length inst = n_nodes) (concat pts) ->
+  fx = true \/ others_contribute (map (firstn num) pts) smp c = false ->
+  exists a,
+    cell4 (generate_multiconfmaps_v fx pts n_nodes H W num sigma s) smp c i j = Some a /\
+    val a = Rmax_list (map (fun inst => gauss_spec (nth c inst None) (INR (j * s)) (INR (i * s))
+                                                   (Q2R sigma * INR s))
+                           (firstn num insts)).
+Proof. exact generate_multiconfmaps_cell_per_sample. Qed.
+Print Assumptions c01_multi_value_formula_variants.
+
+Theorem c01_multi_value_formula_repaired :
+  forall pts n_nodes H W num sigma s smp insts c i j,
+  (0 < s)%nat -> (0 < sigma)%Q ->
+  (i * s < H)%nat -> (j * s < W)%nat -> (c < n_nodes)%nat -> nth_error pts smp = Some insts ->
+  Forall (fun inst => length inst = n_nodes) (concat pts) ->
+  exists a,
+    cell4 (generate_multiconfmaps_v true pts n_nodes H W num sigma s) smp c i j = Some a /\
+    val a = Rmax_list (map (fun inst => gauss_spec (nth c inst None) (INR (j * s)) (INR (i * s))
+                                                   (Q2R sigma * INR s))
+                           (firstn num insts)).
+Proof. intros. apply generate_multiconfmaps_cell_per_sample; auto. Qed.
+Print Assumptions c01_multi_value_formula_repaired.
+
+(* pinned tree = ConfMaps.generate_multiconfmaps; missing for the full statement:
+   inputs with others_contribute = true, where it is false (c01_multi_value_formula_refuted) *)
+Theorem c01_multi_value_formula_partial :
+  forall pts n_nodes H W num sigma s smp insts c i j,
+  (0 < s)%nat -> (0 < sigma)%Q ->
+  (i * s < H)%nat -> (j * s < W)%nat -> (c < n_nodes)%nat -> nth_error pts smp = Some insts ->
+  Forall (fun inst => length inst = n_nodes) (concat pts) ->
+  others_contribute (map (firstn num) pts) smp c = false ->
+  exists a,
+    cell4 (generate_multiconfmaps pts n_nodes H W num sigma s) smp c i j = Some a /\
+    val a = Rmax_list (map (fun inst => gauss_spec (nth c inst None) (INR (j * s)) (INR (i * s))
+                                                   (Q2R sigma * INR s))
+                           (firstn num insts)).
+Proof. intros. apply (generate_multiconfmaps_cell_per_sample false); auto. Qed.
+Print Assumptions c01_multi_value_formula_partial.
+
+Theorem c01_multi_value_formula_refuted :
+  exists pts n_nodes H W num sigma s smp insts c i j,
+    (0 < s)%nat /\ (0 < sigma)%Q /\ (i * s < H)%nat /\ (j * s < W)%nat /\ (c < n_nodes)%nat /\
+    nth_error pts smp = Some insts /\
+    Forall (fun inst => length inst = n_nodes) (concat pts) /\
+    others_contribute (map (firstn num) pts) smp c = true /\
+    exists a,
+      cell4 (generate_multiconfmaps_v false pts n_nodes H W num sigma s) smp c i j = Some a /\
+      val a <> Rmax_list (map (fun inst => gauss_spec (nth c inst None) (INR (j * s)) (INR (i * s))
+                                                      (Q2R sigma * INR s))
+                              (firstn num insts)).
+Proof. exact generate_multiconfmaps_per_sample_refuted. Qed.
+Print Assumptions c01_multi_value_formula_refuted.
+
+(* one sample (every call /repo makes: custom_datasets.py, streaming_datasets.py, the pipes per example): both variants *)
+Theorem c01_multi_value_formula_one_sample :
+  forall fx insts n_nodes H W num sigma s c i j,
+  (0 < s)%nat -> (0 < sigma)%Q ->
+  (i * s < H)%nat -> (j * s < W)%nat -> (c < n_nodes)%nat ->
+  Forall (fun inst => length inst = n_nodes) insts ->
+  exists a,
+    cell4 (generate_multiconfmaps_v fx [insts] n_nodes H W num sigma s) 0 c i j = Some a /\
+    val a = Rmax_list (map (fun inst => gauss_spec (nth c inst None) (INR (j * s)) (INR (i * s))
+                                                   (Q2R sigma * INR s))
+                           (firstn num insts)).
+Proof.
+  intros fx insts n_nodes H W num sigma s c i j Hs Hsig Hi Hj Hc Hall.
+  apply generate_multiconfmaps_cell_per_sample; try assumption.
+  - reflexivity.
+  - simpl. rewrite app_nil_r. exact Hall.
+  - right. reflexivity.
+Qed.
+Print Assumptions c01_multi_value_formula_one_sample.
+
+(* centroid layout: ONE channel, maximum over the first num_instances centroids of the sample *)
+Theorem c01_centroid_value_formula_variants :
+  forall fx cents H W num sigma s smp cl i j,
+  (0 < s)%nat -> (0 < sigma)%Q ->
+  (i * s < H)%nat -> (j * s < W)%nat -> nth_error cents smp = Some cl ->
+  fx = true \/ others_contribute (cent_pts cents num) smp 0 = false ->
+  exists a,
+    cell4 (generate_multiconfmaps_centroids_v fx cents H W num sigma s) smp 0 i j = Some a /\
+    val a = Rmax_list (map (fun c => gauss_spec c (INR (j * s)) (INR (i * s)) (Q2R sigma * INR s))
+                           (firstn num cl)).
+Proof. exact generate_multiconfmaps_centroids_cell_per_sample. Qed.
+Print Assumptions c01_centroid_value_formula_variants.
+
+Theorem c01_centroid_value_formula_repaired :
+  forall cents H W num sigma s smp cl i j,
+  (0 < s)%nat -> (0 < sigma)%Q ->
+  (i * s < H)%nat -> (j * s < W)%nat -> nth_error cents smp = Some cl ->
+  exists a,
+    cell4 (generate_multiconfmaps_centroids_v true cents H W num sigma s) smp 0 i j = Some a /\
+    val a = Rmax_list (map (fun c => gauss_spec c (INR (j * s)) (INR (i * s)) (Q2R sigma * INR s))
+                           (firstn num cl)).
+Proof. intros. apply generate_multiconfmaps_centroids_cell_per_sample; auto. Qed.
+Print Assumptions c01_centroid_value_formula_repaired.
+
+Theorem c01_centroid_value_formula_partial :
+  forall cents H W num sigma s smp cl i j,
+  (0 < s)%nat -> (0 < sigma)%Q ->
+  (i * s < H)%nat -> (j * s < W)%nat -> nth_error cents smp = Some cl ->
+  others_contribute (cent_pts cents num) smp 0 = false ->
+  exists a,
+    cell4 (generate_multiconfmaps_centroids cents H W num sigma s) smp 0 i j = Some a /\
+    val a = Rmax_list (map (fun c => gauss_spec c (INR (j * s)) (INR (i * s)) (Q2R sigma * INR s))
+                           (firstn num cl)).
+Proof. intros. apply (generate_multiconfmaps_centroids_cell_per_sample false); auto. Qed.
+Print Assumptions c01_centroid_value_formula_partial.
+
+(* the selector is never met by a one-sample array *)
+Theorem c01_one_sample_not_selected :
+  forall pts smp c, length pts = 1%nat -> (smp < length pts)%nat -> others_contribute pts smp c = false.
+Proof. exact one_sample_not_selected. Qed.
+Print Assumptions c01_one_sample_not_selected.
+
+(* zero channel, per sample: a node that no animal of the sample has labelled *)
+Theorem c01_multi_missing_channel_zero_variants :
+  forall fx pts n_nodes xv yv sig smp insts c i j x y,
+  (0 < sig)%Q -> nth_error yv i = Some y -> nth_error xv j = Some x ->
+  (c < n_nodes)%nat -> nth_error pts smp = Some insts ->
+  Forall (fun inst => length inst = n_nodes) (concat pts) ->
+  fx = true \/ others_contribute pts smp c = false ->
+  Forall (fun inst => nth c inst None = None) insts ->
+  exists a, cell4 (mmc fx pts n_nodes xv yv sig) smp c i j = Some a /\ val a = 0.
+Proof. exact mmc_missing_channel_zero. Qed.
+Print Assumptions c01_multi_missing_channel_zero_variants.
+
+(* the multi-instance DataPipe (no slice by num_instances), per sample *)
+Theorem c01_datapipe_multi_ignores_padding_variants :
+  forall fx pts n_nodes H W num sigma s smp insts c i j,
+  (0 < s)%nat -> (0 < sigma)%Q ->
+  (i * s < H)%nat -> (j * s < W)%nat -> (c < n_nodes)%nat -> nth_error pts smp = Some insts ->
+  Forall (fun inst => length inst = n_nodes) (concat pts) ->
+  fx = true \/ others_contribute pts smp c = false ->
+  Forall (fun inst => nth c inst None = None) (skipn num insts) ->
+  exists a,
+    cell4 (dp_multi_v fx pts n_nodes H W sigma s) smp c i j = Some a /\
+    val a = Rmax_list (map (fun inst => gauss_spec (nth c inst None) (INR (j * s)) (INR (i * s))
+                                                   (Q2R sigma * INR s))
+                           (firstn num insts)).
+Proof. exact dp_multi_cell_per_sample. Qed.
+Print Assumptions c01_datapipe_multi_ignores_padding_variants.
+
+(* fold_cell (c01_missing_contributes_nothing_def, c01_all_missing_zero_def) is the
+   cell of the executable per-sample function *)
+Theorem c01_fold_cell_is_the_cell :
+  forall insts n_nodes xv yv sig c i j x y,
+  nth_error yv i = Some y -> nth_error xv j = Some x -> (c < n_nodes)%nat ->
+  Forall (fun inst => length inst = n_nodes) insts ->
+  cell4 (make_multi_confmaps_ps [insts] n_nodes xv yv sig) 0 c i j =
+  Some (fold_cell sig x y (map (fun inst => nth c inst None) insts) None).
+Proof. exact multi_one_cell_is_fold_cell. Qed.
+Print Assumptions c01_fold_cell_is_the_cell.
+
+(* range on the outputs of generate_confmaps *)
+Theorem c01_generate_confmaps_range :
+  forall pts H W sigma s smp nodes c p i j,
+  (0 < s)%nat -> (0 < sigma)%Q ->
+  nth_error pts smp = Some nodes -> nth_error nodes c = Some p ->
+  (i * s < H)%nat -> (j * s < W)%nat ->
+  exists a, cell4 (generate_confmaps3 pts H W sigma s) smp c i j = Some a /\ 0 <= val a <= 1.
+Proof. exact generate_confmaps3_range. Qed.
+Print Assumptions c01_generate_confmaps_range.
+
+(* ---- shapes, end to end ---- *)
+Theorem c01_shape_multi_e2e :
+  forall fx pts n_nodes H W num sigma s, (0 < s)%nat ->
+  Forall (fun inst => length inst = n_nodes) (concat pts) ->
+  out_shape (length pts) n_nodes (ceil_div H s) (ceil_div W s)
+            (generate_multiconfmaps_v fx pts n_nodes H W num sigma s).
+Proof. intros fx pts n_nodes H W num sigma s _. apply generate_multiconfmaps_shape. Qed.
+Print Assumptions c01_shape_multi_e2e.
+
+Theorem c01_shape_centroid :
+  forall fx cents H W num sigma s, (0 < s)%nat ->
+  out_shape (length cents) 1 (ceil_div H s) (ceil_div W s)
+            (generate_multiconfmaps_centroids_v fx cents H W num sigma s).
+Proof. intros fx cents H W num sigma s _. apply generate_multiconfmaps_centroids_shape. Qed.
+Print Assumptions c01_shape_centroid.
+
+Theorem c01_shape_rank4 :
+  forall pts H W sigma s, (0 < s)%nat ->
+  length (generate_confmaps4 pts H W sigma s) = length pts /\
+  forall smp insts n_nodes, nth_error pts smp = Some insts ->
+    Forall (fun l => length l = n_nodes) insts ->
+    exists chans, nth_error (generate_confmaps4 pts H W sigma s) smp = Some chans /\
+      length chans = (length insts * n_nodes)%nat /\
+      Forall (cmap_shape (ceil_div H s) (ceil_div W s)) chans.
+Proof. intros pts H W sigma s _. apply generate_confmaps4_shape. Qed.
+Print Assumptions c01_shape_rank4.
+
+(* ---- largest at the nearest grid cell, on the outputs: weak, strict, = 1 iff on the keypoint ---- *)
+Theorem c01_nearest_cell_strict :
+  forall pts H W sigma s smp nodes c q i j i' j',
+  (0 < s)%nat -> (0 < sigma)%Q ->
+  nth_error pts smp = Some nodes -> nth_error nodes c = Some (Some q) ->
+  (i * s < H)%nat -> (j * s < W)%nat -> (i' * s < H)%nat -> (j' * s < W)%nat ->
+  exists a a',
+    cell4 (generate_confmaps3 pts H W sigma s) smp c i j = Some a /\
+    cell4 (generate_confmaps3 pts H W sigma s) smp c i' j' = Some a' /\
+    (dist2 q (INR (j * s)) (INR (i * s)) <= dist2 q (INR (j' * s)) (INR (i' * s)) -> val a' <= val a) /\
+    (dist2 q (INR (j * s)) (INR (i * s)) < dist2 q (INR (j' * s)) (INR (i' * s)) -> val a' < val a) /\
+    (val a = 1 <-> dist2 q (INR (j * s)) (INR (i * s)) = 0).
+Proof. exact generate_confmaps3_nearest_strict. Qed.
+Print Assumptions c01_nearest_cell_strict.
+
+(* multi-instance: every contributing animal's bump is below the cell value *)
+Theorem c01_multi_ge_each_contributor :
+  forall fx pts n_nodes H W num sigma s smp insts c i j inst,
+  (0 < s)%nat -> (0 < sigma)%Q ->
+  (i * s < H)%nat -> (j * s < W)%nat -> (c < n_nodes)%nat -> nth_error pts smp = Some insts ->
+  Forall (fun inst => length inst = n_nodes) (concat pts) ->
+  fx = true \/ others_contribute (map (firstn num) pts) smp c = false ->
+  In inst (firstn num insts) ->
+  exists a,
+    cell4 (generate_multiconfmaps_v fx pts n_nodes H W num sigma s) smp c i j = Some a /\
+    gauss_spec (nth c inst None) (INR (j * s)) (INR (i * s)) (Q2R sigma * INR s) <= val a.
+Proof. exact generate_multiconfmaps_ge_each. Qed.
+Print Assumptions c01_multi_ge_each_contributor.
+
+(* a channel with a single visible contributor (single_contributor l c q: l = l1 ++ inst0 :: l2,
+   node c of inst0 is q, node c missing in l1 and l2) is that keypoint's bump *)
+Theorem c01_multi_nearest_cell :
+  forall fx pts n_nodes H W num sigma s smp insts c q i j i' j',
+  (0 < s)%nat -> (0 < sigma)%Q ->
+  (i * s < H)%nat -> (j * s < W)%nat -> (i' * s < H)%nat -> (j' * s < W)%nat ->
+  (c < n_nodes)%nat -> nth_error pts smp = Some insts ->
+  Forall (fun inst => length inst = n_nodes) (concat pts) ->
+  fx = true \/ others_contribute (map (firstn num) pts) smp c = false ->
+  single_contributor (firstn num insts) c q ->
+  exists a a',
+    cell4 (generate_multiconfmaps_v fx pts n_nodes H W num sigma s) smp c i j = Some a /\
+    cell4 (generate_multiconfmaps_v fx pts n_nodes H W num sigma s) smp c i' j' = Some a' /\
+    (dist2 q (INR (j * s)) (INR (i * s)) <= dist2 q (INR (j' * s)) (INR (i' * s)) -> val a' <= val a) /\
+    (dist2 q (INR (j * s)) (INR (i * s)) < dist2 q (INR (j' * s)) (INR (i' * s)) -> val a' < val a) /\
+    (val a = 1 <-> dist2 q (INR (j * s)) (INR (i * s)) = 0).
+Proof. exact generate_multiconfmaps_nearest. Qed.
+Print Assumptions c01_multi_nearest_cell.
+
+Theorem c01_centroid_nearest_cell :
+  forall fx cents H W num sigma s smp cl q i j i' j',
+  (0 < s)%nat -> (0 < sigma)%Q ->
+  (i * s < H)%nat -> (j * s < W)%nat -> (i' * s < H)%nat -> (j' * s < W)%nat ->
+  nth_error cents smp = Some cl ->
+  fx = true \/ others_contribute (cent_pts cents num) smp 0 = false ->
+  single_centroid (firstn num cl) q ->
+  exists a a',
+    cell4 (generate_multiconfmaps_centroids_v fx cents H W num sigma s) smp 0 i j = Some a /\
+    cell4 (generate_multiconfmaps_centroids_v fx cents H W num sigma s) smp 0 i' j' = Some a' /\
+    (dist2 q (INR (j * s)) (INR (i * s)) <= dist2 q (INR (j' * s)) (INR (i' * s)) -> val a' <= val a) /\
+    (dist2 q (INR (j * s)) (INR (i * s)) < dist2 q (INR (j' * s)) (INR (i' * s)) -> val a' < val a) /\
+    (val a = 1 <-> dist2 q (INR (j * s)) (INR (i * s)) = 0).
+Proof. exact generate_multiconfmaps_centroids_nearest. Qed.
+Print Assumptions c01_centroid_nearest_cell.
+
+(* ---- non-vacuity of the round-4 implications ---- *)
+(* two samples OUTSIDE the selector (pinned variant): sample 0 / node 0, the other sample has only node 1 *)
+Example ex_c01_partial_two_samples_nonvacuous :
+  let pts := [[[Some (2#1, 2#1); None]]; [[None; Some (1#1, 1#1)]]] in
+  others_contribute (map (firstn 1) pts) 0 0 = false /\
+  Forall (fun inst => length inst = 2%nat) (concat pts) /\
+  exists a, cell4 (generate_multiconfmaps_v false pts 2 4 4 1 (3#2) 2) 0 0 1 1 = Some (Some a).
+Proof. cbv zeta. split; [reflexivity|]. split; [repeat constructor|]. eexists. vm_compute. reflexivity. Qed.
+
+(* two samples INSIDE the selector: the repaired variant gives sample 1 its own (empty) map,
+   the pinned one leaks sample 0's keypoint *)
+Example ex_c01_f60_witness :
+  others_contribute (map (firstn 1) f60_pts) 1 0 = true /\
+  cell4 (generate_multiconfmaps_v true f60_pts 1 4 4 1 (3#2) 2) 1 0 1 1 = Some None /\
+  exists a, cell4 (generate_multiconfmaps_v false f60_pts 1 4 4 1 (3#2) 2) 1 0 1 1 = Some (Some a).
+Proof. split; [reflexivity|]. split; [vm_compute; reflexivity|]. eexists. vm_compute. reflexivity. Qed.
+
+Example ex_c01_single_contributor :
+  single_contributor (firstn 3 [[None; Some (1#1, 1#1)]; [Some (3#2, 5#2); None]; [None; None]]) 0 (3#2, 5#2).
+Proof. exists [[None; Some (1#1, 1#1)]], [Some (3#2, 5#2); None], [[None; None]]. split; [reflexivity|]. split; [reflexivity|]. split; repeat constructor. Qed.
+
+Example ex_c01_single_centroid :
+  single_centroid (firstn 2 [None; Some (3#2, 5#2); Some (0#1, 0#1)]) (3#2, 5#2).
+Proof. exists [None], []. split; [reflexivity|]. split; repeat constructor. Qed.
+
+Example ex_c01_rect : rect [[[Some (1#1, 1#1)]; [None]]; [[None]; [None]]].
+Proof. repeat constructor. Qed.
+
+Example ex_c01_shape_centroid_nonvacuous :
+  out_shape 2 1 4 3 (generate_multiconfmaps_centroids_v true [[None; Some (3#2, 5#2)]; [None; None]] 7 5 2 (3#2) 2).
+Proof. vm_compute. repeat constructor. Qed.
